@@ -145,6 +145,53 @@ def rule_pb_out(ctx):
     return r
 
 
+def rule_pb_each(ctx):
+    r = RuleResult('R-pb-each', 'every component of the output tuple that a pullback wrapper takes hold of (`xbar, ybar = out`, `xbar = out[0]`) and '
+                                'uses receives a contribution: storage of component i is written by the wrapper or by the kernel it hands the '
+                                'component to (E1, components of `out` told apart as out#i through tuple arguments). An operand whose adjoint is '
+                                'never written contributes nothing to the gradient although the forward result depends on it')
+    eff = ctx.effects
+    for name, pb in sorted(pb_wrappers(ctx).items()):
+        fi = pb.fi
+        if name in NO_ADJOINT_NEEDED:
+            continue
+        sm = eff.sums[fi]
+        if sm.dangling and name in HYPER:
+            continue
+        comps = {}
+        for st in walk_no_nested(fi.node):
+            if isinstance(st, ast.Assign) and len(st.targets) == 1:
+                t, v = st.targets[0], st.value
+                if isinstance(v, ast.Name) and v.id == 'out' and isinstance(t, (ast.Tuple, ast.List)):
+                    for i, e in enumerate(t.elts):
+                        if isinstance(e, ast.Name):
+                            comps[i] = e.id
+                if isinstance(t, ast.Name) and isinstance(v, ast.Subscript) and norm(v.value) == 'out' and isinstance(v.slice, ast.Constant) \
+                        and isinstance(v.slice.value, int):
+                    comps[v.slice.value] = t.id
+        if not comps:
+            # delegation with the whole tuple: whatever the callee writes is recorded under the same keys
+            keys = sorted(k for k in sm.writes if k.startswith('out#'))
+            if keys:
+                r.ok(construct=_f(fi) + ':delegated', sample='%s hands `out` on; components written: %s' % (fi.qualname, keys))
+            continue
+        for i, nm in sorted(comps.items()):
+            loads = [n for n in walk_no_nested(fi.node) if isinstance(n, ast.Name) and n.id == nm and isinstance(n.ctx, ast.Load)]
+            used = [n for n in loads if not any(isinstance(rt, ast.Return) and any(x is n for x in ast.walk(rt)) for rt in walk_no_nested(fi.node))]
+            if not used:
+                r.ok(construct='%s:%s:placeholder' % (_f(fi), nm), sample='%s: `%s` is only a placeholder (operand without adjoint)' % (fi.qualname, nm))
+                continue
+            key = 'out#%d' % i
+            if key in sm.writes:
+                r.ok(construct='%s:%s' % (_f(fi), nm), nontrivial=True,
+                     sample='%s: `%s` (component %d) written via %s' % (fi.qualname, nm, i, sorted(sm.writes[key].values(), key=len)[0][:120]))
+            else:
+                r.bad(Finding('R-pb-each', _f(fi), nm, '%s takes `%s` from component %d of `out` and uses it, but nothing is ever written into its storage: '
+                                                       'the adjoint of that operand receives no contribution' % (fi.qualname, nm, i), fi.file, fi.lineno))
+    r.floor = 55
+    return r
+
+
 # -------------------------------------------------------------- R-pb-view
 GUARANTEED_VIEW = {'numpy.transpose', 'method:__getitem__', 'attr:real', 'attr:imag', 'attr:T',
                    'method:transpose', 'numpy.swapaxes'}
